@@ -131,7 +131,7 @@ def _cond_multipleof_only(ctx, origin):
     return True, f"{f.short} runs only under MultipleOf._validate"
 
 
-def _format_values_are_text(call):
+def _format_values_are_text(call, func=None, inf=None):
     """The keyword values of a `.format(...)` call are strings by construction (repr()/_safe_repr()/str literals)."""
     if not isinstance(call, ast.Call) or call.args:
         return False
@@ -141,7 +141,12 @@ def _format_values_are_text(call):
         return isinstance(e, ast.Call) and (dotted(e.func) or "").split(".")[-1] in ("repr", "_safe_repr", "join")
     for k in call.keywords:
         if k.arg is None:
-            if not (isinstance(k.value, ast.DictComp) and text(k.value.value)):
+            v = k.value
+            if isinstance(v, ast.Name) and func is not None and inf is not None and func.param(v.id) is None:
+                binds = [b for b in inf.bindings(func).get(v.id, []) if b[0] != "annot"]
+                if len(binds) == 1 and binds[0][0] == "assign":
+                    v = binds[0][1]  # a local naming the mapping
+            if not (isinstance(v, ast.DictComp) and text(v.value)):
                 return False
         elif not text(k.value):
             return False
@@ -223,7 +228,7 @@ def x1_core(ctx, res, roots, allowed, justified, x3_ok=True):
             x3 = ctx.rule_result("X3")
             # X3 settles the template (fields present, well formed); a ValueError can still come from rendering an
             # integer beyond the int->str limit unless every value passed is text already
-            if not x3.violations() and (exc != "ValueError" or _format_values_are_text(o.node)):
+            if not x3.violations() and (exc != "ValueError" or _format_values_are_text(o.node, o.func, ctx.inf)):
                 just = "message template fields are covered by the keys passed (rule X3)" + \
                     ("; every value passed is text already" if exc == "ValueError" else "")
         if just:
@@ -271,29 +276,62 @@ def _cond_metaschema(ctx):
     return True, "assumption: the schema is metaschema-valid"
 
 
+def _pe_scan(ctx):
+    """parse_element and the private same-module helpers it calls unconditionally as top-level statements, with the
+    top-level statements flattened in execution order: [(function, statement)]."""
+    pe = ctx.func("parse_element")
+    flat = []
+    funcs = [pe]
+    for st in pe.body:
+        if isinstance(st, ast.Expr) and isinstance(st.value, ast.Call) and isinstance(st.value.func, ast.Name):
+            r_ = ctx.prog.resolve_in(pe, st.value.func.id)
+            if r_ and r_[0] == "func" and hasattr(r_[1], "body") and r_[1].module is pe.module and r_[1].name.startswith("_") \
+                    and st.value.args and norm(st.value.args[0]) == pe.params[0].name:
+                funcs.append(r_[1])
+                flat += [(r_[1], x) for x in r_[1].body]
+                continue
+        flat.append((pe, st))
+    return pe, funcs, flat
+
+
+def _dispatch_rows(ctx, fn_, it):
+    from .rules_t import deref_const
+    it = deref_const(ctx, fn_, it)
+    if isinstance(it, ast.Call) and isinstance(it.func, ast.Attribute) and it.func.attr == "items" and not it.args:
+        d_ = it.func.value
+        if isinstance(d_, ast.Name):
+            local = [b[1] for b in ctx.inf.bindings(fn_).get(d_.id, []) if b[0] == "assign"] if d_.id in fn_.locals() else []
+            d_ = local[0] if len(local) == 1 else deref_const(ctx, fn_, d_)
+        if isinstance(d_, ast.Dict):
+            return list(zip(d_.keys, d_.values))
+        return []
+    if isinstance(it, (ast.Tuple, ast.List)):
+        return [(r.elts[0], r.elts[1]) for r in it.elts if isinstance(r, ast.Tuple) and len(r.elts) == 2]
+    return []
+
+
 def _cond_dispatch(kw):
     def cond(ctx):
-        pe = ctx.func("parse_element")
-        from .rules_t import deref_const
-        for n in walk_own(pe.body):
-            it_ = deref_const(ctx, pe, n.iter) if isinstance(n, ast.For) else None
-            if isinstance(n, ast.For) and isinstance(it_, (ast.Tuple, ast.List)):
-                rows = [r for r in it_.elts if isinstance(r, ast.Tuple) and len(r.elts) == 2]
-                for r in rows:
-                    if isinstance(r.elts[0], ast.Constant) and r.elts[0].value == kw:
-                        # body must guard on `keyword in schema`
+        pe, funcs, _flat = _pe_scan(ctx)
+        for fn_ in funcs:
+            sname = fn_.params[0].name if fn_.params else "schema"
+            for n in walk_own(fn_.body):
+                if not isinstance(n, ast.For):
+                    continue
+                for k_, v_ in _dispatch_rows(ctx, fn_, n.iter):
+                    if isinstance(k_, ast.Constant) and k_.value == kw:
                         tgt = n.target
                         if isinstance(tgt, ast.Tuple):
                             # the call through the row's parser is guarded by `keyword in schema`
                             calls = [x for x in walk_own(n.body) if isinstance(x, ast.Call) and norm(x.func) == norm(tgt.elts[1])]
-                            guarded = bool(calls) and all(any(norm(t_) == f"{norm(tgt.elts[0])} in schema" and pol_
+                            guarded = bool(calls) and all(any(norm(t_) == f"{norm(tgt.elts[0])} in {sname}" and pol_
                                                             for t_, pol_ in flat_guards(Parents(n.body), c_)) for c_ in calls)
                             if guarded:
-                                fn = norm(r.elts[1])
+                                fn = norm(v_)
                                 callers = [f for f in ctx.prog.all_funcs() for s in ctx.inf.sites(f)[0]
                                            if s.callee.short == fn and s.kind == "call"]
-                                only = all(c.short == "parse_element" for c in callers)
-                                return only, f"row ({kw!r}, {fn}) under `keyword in schema`; sole caller parse_element"
+                                only = all(c in funcs for c in callers)
+                                return only, f"row ({kw!r}, {fn}) under `keyword in schema`; sole caller {fn_.short}"
         return False, f"dispatch row for {kw!r} not found"
     return cond
 
@@ -343,11 +381,11 @@ def _cond_not_guard(ctx):
 
 
 def _cond_additional_stored(ctx):
-    pe = ctx.func("parse_element")
+    pe, _funcs, flat = _pe_scan(ctx)
     idx_store = idx_call = None
-    sname = pe.params[0].name
     call_idx = []
-    for i, st in enumerate(pe.body):
+    for i, (fn_, st) in enumerate(flat):
+        sname = fn_.params[0].name if fn_.params else "schema"
         if isinstance(st, ast.Assign) and any(norm(t) == f"{sname}['additionalProperties']" for t in st.targets) and idx_store is None:
             idx_store = i
         if any(isinstance(x, ast.Call) and dotted(x.func) == "_parse_typed" for x in ast.walk(st)):
@@ -480,7 +518,9 @@ def x3(ctx, res):
                 return isinstance(v, ast.DictComp) and len(v.generators) == 1 and not v.generators[0].ifs \
                     and norm(v.generators[0].iter) == "self.params.items()" and isinstance(v.generators[0].target, ast.Tuple) \
                     and norm(v.key) == norm(v.generators[0].target.elts[0])
-            body_ok = any(isinstance(x, ast.Return) and _fmt_of_params(x.value) for x in walk_own(emf.body))
+            from .norm import view as _view
+            body_ok = any(isinstance(x, ast.Return) and _fmt_of_params(x.value) for x in walk_own(emf.body)) or \
+                any(isinstance(x, ast.Return) and _fmt_of_params(x.value) for x in walk_own(_view(emf, ctx.prog).body))
             if not body_ok:
                 raise AnalysisError("Validator.error_message is no longer `self.message.format(**self.params)`")
         elif emf is not None:
